@@ -156,6 +156,106 @@ Section SeqProofs.
     destruct H as [Eo [Es _]]. cbn [fst snd]. split; [f_equal; exact Eo|exact Es].
   Qed.
 
+  (* ---------------------------------------------------------------- lookups cancelled by their caller (one handle)
+     A cancelled lookup hands over the first k elements of the wrapped store's answer and never disturbs the cache
+     invariant (a cancelled miss stores nothing), so every other request keeps getting the wrapped store's answer. *)
+  Variable cancelled : err.
+  Notation handle_step_c := (@handle_step_c istate gid wreq query elem err K is_exist key K_eqb inner_step cancelled).
+  Notation memo_run_c := (@memo_run_c istate gid wreq query elem err K is_exist key K_eqb inner_step cancelled).
+
+  Definition creq_in_D (r : @creq wreq query) : Prop :=
+    match r with CPlain (Read q) => D q = true | CCancel q _ => D q = true | _ => True end.
+
+  (* what the wrapped store alone answers to the underlying request *)
+  Definition ref_creq (s : istate) (g : gid) (r : @creq wreq query) : istate * @answer elem err :=
+    match r with
+    | CPlain r => inner_step s g r
+    | CCancel q _ => inner_step s g (Read q)
+    end.
+
+  (* what the caller must have got *)
+  Definition delivers (r : @creq wreq query) (a b : @answer elem err) : Prop :=
+    match r with
+    | CPlain _ => a = b
+    | CCancel q k => if is_exist q then a = b else elems_of a = firstn k (elems_of b)
+    end.
+
+  Lemma handle_step_c_correct :
+    forall s h r, coh s h -> creq_in_D r ->
+      let '(s', h', a, lk) := handle_step_c s h r in
+      s' = fst (ref_creq s (h_gid h) r) /\ delivers r a (snd (ref_creq s (h_gid h) r)) /\
+      coh s' h' /\ h_gid h' = h_gid h.
+  Proof.
+    intros s h r C Dr. destruct r as [r|q k]; cbn [Memo.handle_step_c ref_creq delivers].
+    - pose proof (handle_step_correct s h r C) as HS.
+      destruct (handle_step s h r) as [[s' h'] a].
+      destruct HS as [E [C' G]]; [intros q Eq; subst r; exact Dr|].
+      rewrite <- E. cbn. auto.
+    - cbn in Dr. destruct (is_exist q) eqn:Ex.
+      + pose proof (handle_step_correct s h (Read q) C) as HS.
+        destruct (handle_step s h (Read q)) as [[s' h'] a].
+        destruct HS as [E [C' G]]; [intros q' Eq; inversion Eq; subst; exact Dr|].
+        rewrite <- E. cbn. auto.
+      + assert (Ps : fst (inner_step s (h_gid h) (Read q)) = s) by apply Hpure.
+        destruct (probe h q) as [a0|] eqn:P.
+        * pose proof (probe_coh s h q a0 C Dr P) as Ea. unfold inner_read in Ea.
+          destruct a0 as [v e|b e|e|].
+          -- destruct (Nat.ltb k (length v)) eqn:L; (split; [symmetry; exact Ps|]); (split; [|split; [exact C|reflexivity]]);
+               rewrite <- Ea; cbn [elems_of]; [reflexivity|].
+             apply Nat.ltb_ge in L. symmetry. apply firstn_all2. exact L.
+          -- unfold Memo.probe in P. rewrite Ex in P. destruct (afind (key q) (h_list h)) as [[|x l]|]; discriminate.
+          -- unfold Memo.probe in P. rewrite Ex in P. destruct (afind (key q) (h_list h)) as [[|x l]|]; discriminate.
+          -- unfold Memo.probe in P. rewrite Ex in P. destruct (afind (key q) (h_list h)) as [[|x l]|]; discriminate.
+        * destruct (inner_step s (h_gid h) (Read q)) as [s' a] eqn:E. cbn [fst snd] in *. subst s'.
+          assert (Ea : a = inner_read s (h_gid h) q) by (unfold inner_read; rewrite E; reflexivity).
+          destruct a as [l e|b e|e|].
+          -- destruct (Nat.ltb k (length l)) eqn:L.
+             ++ split; [reflexivity|]. split; [reflexivity|]. split; [exact C|reflexivity].
+             ++ split; [reflexivity|]. split.
+                ** cbn [elems_of]. apply Nat.ltb_ge in L. symmetry. apply firstn_all2. exact L.
+                ** split; [rewrite Ea; apply coh_store_after; assumption|apply gid_store_after].
+          -- split; [reflexivity|]. split; [cbn; symmetry; apply firstn_nil|].
+             split; [rewrite Ea; apply coh_store_after; assumption|apply gid_store_after].
+          -- split; [reflexivity|]. split; [cbn; symmetry; apply firstn_nil|].
+             split; [rewrite Ea; apply coh_store_after; assumption|apply gid_store_after].
+          -- split; [reflexivity|]. split; [cbn; symmetry; apply firstn_nil|].
+             split; [rewrite Ea; apply coh_store_after; assumption|apply gid_store_after].
+  Qed.
+
+  (* the wrapped store's answers along a list of requests *)
+  Fixpoint ref_answers (s : istate) (g : gid) (rs : list (@creq wreq query)) : list (@answer elem err) :=
+    match rs with
+    | [] => []
+    | r :: rest => snd (ref_creq s g r) :: ref_answers (fst (ref_creq s g r)) g rest
+    end.
+
+  Fixpoint delivered (rs : list (@creq wreq query)) (out refs : list (@answer elem err)) : Prop :=
+    match rs, out, refs with
+    | r :: rs', a :: out', b :: refs' => delivers r a b /\ delivered rs' out' refs'
+    | _, [], _ => True
+    | _, _, _ => False
+    end.
+
+  Theorem cancelled_single_handle :
+    forall rs s h, coh s h -> Forall creq_in_D rs ->
+      let '(m, out, lk) := memo_run_c (mkM s [h]) (map (CDo 0) rs) in
+      delivered rs out (ref_answers s (h_gid h) rs) /\ (lk = false -> length out = length rs).
+  Proof.
+    induction rs as [|r rs IH]; intros s h C DD.
+    - cbn. auto.
+    - inversion DD as [|? ? D1 D2]; subst.
+      cbn [map Memo.memo_run_c Memo.memo_step_c m_handles m_inner nth_error ref_answers].
+      pose proof (handle_step_c_correct s h r C D1) as HS.
+      destruct (handle_step_c s h r) as [[[s' h'] a] lk] eqn:E.
+      destruct HS as [Es [Dl [C' G]]]. cbn [upd_nth].
+      destruct lk.
+      + cbn [delivered]. split; [split; [exact Dl|destruct rs; exact I]|discriminate].
+      + specialize (IH s' h' C' D2). rewrite G in IH. rewrite <- Es.
+        destruct (memo_run_c (mkM s' [h']) (map (CDo 0) rs)) as [[m out] lk'].
+        destruct IH as [I1 I2]. cbn [delivered length]. split; [split; assumption|].
+        intro L. rewrite (I2 L). reflexivity.
+  Qed.
+
   (* ---------------------------------------------------------------- several handles: the invariant localises the defect.
      A history is `handle_safe` when, after a write through one handle, no OTHER handle of the same graph is read
      again.  We prove the simpler and still useful special case: any number of handles, reads only after the last
